@@ -161,6 +161,13 @@ func BuildWith(cfg *Cfg, beforeHelp func(b *Built)) *Built {
 			root.SetRequireOrder()
 		}
 	}
+	if cfg.UnsetLate {
+		for i, nd := range cfg.Nodes { // parents come before their children in the node list: outermost first
+			if nd.Unset && b.GOpts[i] != nil {
+				b.GOpts[i].UnsetOptions()
+			}
+		}
+	}
 	if beforeHelp != nil {
 		beforeHelp(b)
 	}
@@ -196,7 +203,7 @@ func (b *Built) defineNode(n int, g *getoptions.GetOpt) {
 	cfg := b.Cfg
 	nd := cfg.Nodes[n-1]
 	b.GOpts[n-1] = g
-	if nd.Unset {
+	if nd.Unset && !cfg.UnsetLate {
 		g.UnsetOptions()
 	}
 	if !(b.Cfg.Late && n == 1) {
@@ -405,34 +412,34 @@ func (b *Built) defineOpt(i int, g *getoptions.GetOpt) {
 	case "sslice":
 		if o.UseVar {
 			var v []string
-			g.StringSliceVar(&v, name, o.Min, o.Max, fns...)
+			g.StringSliceVar(&v, name, o.Min, realMax(o.Max), fns...)
 			b.Ptrs[i] = &v
 		} else {
-			b.Ptrs[i] = g.StringSlice(name, o.Min, o.Max, fns...)
+			b.Ptrs[i] = g.StringSlice(name, o.Min, realMax(o.Max), fns...)
 		}
 	case "islice":
 		if o.UseVar {
 			var v []int
-			g.IntSliceVar(&v, name, o.Min, o.Max, fns...)
+			g.IntSliceVar(&v, name, o.Min, realMax(o.Max), fns...)
 			b.Ptrs[i] = &v
 		} else {
-			b.Ptrs[i] = g.IntSlice(name, o.Min, o.Max, fns...)
+			b.Ptrs[i] = g.IntSlice(name, o.Min, realMax(o.Max), fns...)
 		}
 	case "fslice":
 		if o.UseVar {
 			var v []float64
-			g.Float64SliceVar(&v, name, o.Min, o.Max, fns...)
+			g.Float64SliceVar(&v, name, o.Min, realMax(o.Max), fns...)
 			b.Ptrs[i] = &v
 		} else {
-			b.Ptrs[i] = g.Float64Slice(name, o.Min, o.Max, fns...)
+			b.Ptrs[i] = g.Float64Slice(name, o.Min, realMax(o.Max), fns...)
 		}
 	case "smap":
 		if o.UseVar {
 			var v map[string]string
-			g.StringMapVar(&v, name, o.Min, o.Max, fns...)
+			g.StringMapVar(&v, name, o.Min, realMax(o.Max), fns...)
 			b.Ptrs[i] = &v
 		} else {
-			m := g.StringMap(name, o.Min, o.Max, fns...)
+			m := g.StringMap(name, o.Min, realMax(o.Max), fns...)
 			b.Ptrs[i] = &m
 		}
 	default:
@@ -602,4 +609,15 @@ func aliasFns(g *getoptions.GetOpt, o *OptCfg) []getoptions.ModifyFn {
 		fns = append(fns, g.Alias(FromAtoms(a)))
 	}
 	return fns
+}
+
+// Unlimited - the largest maximum a definition can carry (the specification's integers are 32 bits wide): the
+// program is built with math.MaxInt, "as many as there are".
+const Unlimited = 1000000
+
+func realMax(m int) int {
+	if m >= Unlimited {
+		return math.MaxInt
+	}
+	return m
 }
